@@ -12,6 +12,7 @@ trap cleanup EXIT
 res() { echo "$1" | tee -a $log; }
 cd $d
 # demo without patch
+( cmake -G Ninja -B $wt/_build -S $wt -DCMAKE_BUILD_TYPE=RelWithDebInfo >/dev/null && cmake --build $wt/_build >/dev/null ) >>$log 2>&1
 echo "== demo on unchanged tree (HEAD $(git -C /repo rev-parse --short HEAD))" >>$log
 ( WT=$wt timeout 600 bash ./run.sh ) >>$log 2>&1; rc0=$?
 res "demo_without_patch_rc=$rc0"
